@@ -361,6 +361,15 @@ func (s *sim) pump(n *node) {
 			return
 		}
 		s.guard("Advance", func() { n.rn.Advance(rd) })
+		if s.cfg.LazyPump && !s.inLiveness && s.tape.Draw(3) == 0 {
+			// a slow application: what is still pending waits for the node's next stimulus
+			var more bool
+			s.guard("HasReady", func() { more = n.rn.HasReady() })
+			if more {
+				s.probe("ready-left-pending-by-slow-application")
+			}
+			return
+		}
 	}
 }
 
@@ -956,6 +965,10 @@ func (s *sim) confChange() {
 	if mode >= 2 {
 		nch = 1 + s.tape.Draw(3)
 	}
+	batch := s.cfg.BatchProps && mode <= 1 && s.tape.Draw(3) == 0
+	if batch {
+		nch = 2
+	}
 	var changes []pb.ConfChangeSingle
 	kindTag := ""
 	for c := 0; c < nch; c++ {
@@ -1009,6 +1022,10 @@ func (s *sim) confChange() {
 	if len(changes) == 0 || s.viol != nil {
 		return
 	}
+	if batch && len(changes) == 2 {
+		s.proposeBatch(l, changes, mode)
+		return
+	}
 	switch mode {
 	case 0:
 		s.proposeCC(l, pb.ConfChange{Type: changes[0].Type, NodeID: changes[0].NodeID}, kindTag)
@@ -1029,6 +1046,43 @@ func remove(xs []uint64, x uint64) []uint64 {
 		}
 	}
 	return out
+}
+
+// proposeBatch steps ONE proposal message carrying two membership changes (the
+// library must let at most one of them through: only one change may be pending).
+func (s *sim) proposeBatch(l *node, changes []pb.ConfChangeSingle, mode int) {
+	s.fault("confchange-two-in-one-proposal")
+	s.ccProposed++
+	var ents []pb.Entry
+	if s.tape.Draw(2) == 0 {
+		s.propSeq++
+		data := make([]byte, 9)
+		data[0] = 'p'
+		binary.LittleEndian.PutUint64(data[1:], s.propSeq)
+		ents = append(ents, pb.Entry{Type: pb.EntryNormal, Data: data})
+	}
+	for _, ch := range changes {
+		if mode == 0 {
+			cc := pb.ConfChange{Type: ch.Type, NodeID: ch.NodeID}
+			d, err := cc.Marshal()
+			if err != nil {
+				panic("harness: " + err.Error())
+			}
+			ents = append(ents, pb.Entry{Type: pb.EntryConfChange, Data: d})
+		} else {
+			cc := pb.ConfChangeV2{Changes: []pb.ConfChangeSingle{ch}}
+			d, err := cc.Marshal()
+			if err != nil {
+				panic("harness: " + err.Error())
+			}
+			ents = append(ents, pb.Entry{Type: pb.EntryConfChangeV2, Data: d})
+		}
+	}
+	s.hash(0xAB, l.id, uint64(len(ents)), uint64(changes[0].NodeID), uint64(changes[1].NodeID))
+	var err error
+	s.guard("Step(MsgProp)", func() { err = l.rn.Step(pb.Message{Type: pb.MsgProp, From: l.id, Entries: ents}) })
+	s.logf("two conf changes in one proposal at %d: %v -> %v", l.id, changes, err)
+	s.settle(l)
 }
 
 func (s *sim) proposeCC(l *node, cc pb.ConfChangeI, tag string) {
